@@ -2,9 +2,13 @@
 //! the real library (path dependency on /repo, rebuilt from its working tree).
 pub mod build;
 pub mod execx;
+#[cfg(feature = "x-meta")]
 pub mod metax;
+#[cfg(feature = "x-parseq")]
 pub mod parseqx;
+#[cfg(feature = "x-world")]
 pub mod worldx;
+#[cfg(feature = "x-zoo")]
 pub mod zoo;
 pub mod prog;
 pub mod record;
